@@ -1,8 +1,10 @@
 #!/bin/sh
 # Offline build of the framework: regenerate coq/Gen from /repo, then a full .vo build.
-set -e
+# `make -k`: a file that does not build must not keep the other properties' cones from being built here;
+# every check rebuilds (and audits) the cone of its own Props/Cxx.vo and reports a failure there.
 cd /verif
-/venv/bin/python tools/translate.py
+/venv/bin/python tools/translate.py || echo "setup: translator failed closed (the checks will report it)"
 cd coq
 coq_makefile -f _CoqProject -o Makefile
-timeout 3000 make -j16
+timeout 3000 make -k -j16 || echo "setup: some files did not build (the checks of the properties depending on them will report it)"
+exit 0
